@@ -211,7 +211,7 @@ func focusCurveHints(name string) bool {
 // a sub-scalar of a decomposition hint that is wider than anything the honest hint returns.
 func classifyCurve(honest, faulted []hintCall, planned map[int]bool, q *big.Int) string {
 	best := "?"
-	for idx := range planned {
+	for _, idx := range sortedKeys(planned) {
 		if idx >= len(faulted) || idx >= len(honest) {
 			continue
 		}
